@@ -82,6 +82,10 @@ func buildC10(c caseC10) (mq.ControlPacket, model.Packet, error) {
 }
 
 func checkC10(c caseC10) (frame []byte, sig, msg string) {
+	guard.SetCurrent(func() []byte {
+		return mustJSON(vf.Failure{Property: "C10", Kind: "hang", Case: mustJSON(c), Signature: "hang", Message: "a library call made for this case did not return"})
+	})
+	defer guard.SetCurrent(nil)
 	var p mq.ControlPacket
 	var err error
 	if pan := guard.Call(func() { p, _, err = buildC10(c) }); pan != nil {
